@@ -3,6 +3,7 @@
 From Coq Require Import String.
 From Coq Require Import List Strings.Byte NArith ZArith Bool.
 Require Import Bytes Show Tables Codec Norm CleanPath Chain.
+Require Serve.
 Import ListNotations.
 
 Definition arg (args : list bs) (i : nat) : bs := nth i args [].
@@ -23,7 +24,8 @@ Definition entries : list (bs * (list bs -> bs)) := [
   (B "args_encode", fun a => encode (pairs_kv a));
   (B "normalize_path", fun a => show_obs (normalize_path (arg a 0)));
   (B "clean_path", fun a => show_obs (clean_path (arg a 0)));
-  (B "run_chain", fun a => run_chain a)
+  (B "run_chain", fun a => run_chain a);
+  (B "serve_trace", fun a => Serve.serve_trace (arg a 0))
 ].
 
 Fixpoint lookup (cmd : bs) (l : list (bs * (list bs -> bs))) : option (list bs -> bs) :=
